@@ -646,6 +646,7 @@ func c14r13(c *Ctx) {
 		})
 		c.check(okIns, R, f.Key+": loaded splits go before the buffer split, in file order", f.Pos(), "splits[len-1] = loaded; append(buffer split)", "loaded hint splits are not inserted before the chunk's buffer split: the split index no longer equals the split id of the file")
 	}
+	c14r13b(c)
 }
 
 // c14r14: dumping splits.
